@@ -20,7 +20,7 @@ PROPS = {
         "assumptions": ["Draft-6 validation spec section 6 frozen as keyword-keyed tables in the checker"],
     },
     "C02": {
-        "rules": ["K5", "T10", "T3", "N3", "G11", "T12", "T14", "T13", "D3", "G10"],
+        "rules": ["K5", "T10", "T3", "N3", "G11", "T12", "T14", "T13", "D3", "G10", "R3"],
         "decides": "schema text reaches emitted source only through repr()/checked emitters/identifiers; every "
                    "annotation name is importable; import discovery walks every keyword position; class names "
                    "are guarded; declaration order obligations of C11.",
@@ -47,13 +47,13 @@ PROPS = {
         "not_decided": "conversion 'exactly as if supplied' for nested defaults beyond G6 + purity.",
     },
     "C06": {
-        "rules": ["T1", "T2", "T6", "K1", "K2", "K3", "K4", "K7", "D3", "T13", "K9", "K10", "N4"],
+        "rules": ["T1", "T2", "T6", "K1", "K2", "K3", "K4", "K7", "D3", "T13", "K9", "K10", "N4", "T3", "K12"],
         "decides": "structural preconditions of the round trip: parser, serializer, repr and class generator "
                    "enumerate the same keywords; nothing read is dropped; falsy values survive; names keep their kind.",
         "not_decided": "the identity itself.",
     },
     "C07": {
-        "rules": ["K1", "K3", "K7", "K5", "K8", "K9", "G10", "K10"],
+        "rules": ["K1", "K3", "K7", "K5", "K8", "K9", "G10", "K10", "T3"],
         "decides": "a default extracted from the schema is re-attached on every path, never filtered by "
                    "truthiness; only the auto-title annotation is stripped from literals; the description reaches "
                    "the docstring only through an escaping emitter.",
